@@ -14,6 +14,14 @@
      NewHead / ReorgMsg       a message received from the newHeads / reorg feed subscription
      End         the source was held stable and honest until the node went quiet; final chain
 
+   Classes: the Reset event carries the class content of every block of the run (ment[c] = tags mentioning class c,
+   sierra = the Sierra classes).  A Resp event is logged when the data source's BlockByNumber RETURNS and carries
+   nc, the classes in the NewClasses of the CommittedBlock that was returned, and src: "prod" when the answer was
+   produced by the real sync.NewFeederGatewayDataSource over a scripted feeder (NewClasses computed by the code under
+   test from the local state: every class left out must have been in the local state at some moment while the request
+   was out, every class downloaded must have been missing at some moment - FetchReturn with Windows = TRUE), "script"
+   when the scripted DataSource itself handed over the block with all its classes.
+
    A Resp event carries the answer kind r (ok / bad / fg / wh / err) and corr: for a corrupted copy
    what the altered field is to code that looks at Hash and ParentHash only (hash / parent / other:
    "other" = altered content under the honest hash), for a forged copy its kind (diff / root /
@@ -65,6 +73,8 @@ TReset ==
   /\ curr' = NoReorg /\ revSince' = <<>> /\ seenVers' = {}
   /\ stopping' = FALSE /\ restarts' = 0
   /\ memo' = {} /\ tainted' = {}
+  /\ ment' = [c \in 1..Len(Ev.ment) |-> Range(Ev.ment[c])] /\ sierra' = Range(Ev.sierra)
+  /\ defs' = [c \in 1..Len(Ev.ment) |-> -1] /\ known' = {}
   /\ headsQ' = <<>> /\ reorgQ' = <<>> /\ flags' = {}
 
 TSrc == IsEvent("Src") /\ SrcSet(Ev.chain) /\ Quiet
@@ -86,7 +96,7 @@ TReq ==
 
 TResp ==
   /\ IsEvent("Resp") /\ Quiet
-  /\ \/ \E i \in 1..Len(fq) : fq[i].st = "wait" /\ fq[i].rid = Ev.rid /\ fq[i].h = Ev.h /\ FetchReturn(i, BlockResp)
+  /\ \/ \E i \in 1..Len(fq) : fq[i].st = "wait" /\ fq[i].rid = Ev.rid /\ fq[i].h = Ev.h /\ FetchReturn(i, BlockResp, Range(Ev.nc), Ev.src)
      \/ (rv.on /\ rv.st = "wait" /\ rv.rid = Ev.rid /\ Len(local) - 1 = Ev.h /\ RevertReturn(BlockResp))
 
 TReqLatest ==
